@@ -718,6 +718,7 @@ func sortedStrings(m map[string]bool) []string {
 func (g *Gen) RollbackProbe() Tx {
 	r, m, e := g.R, g.E.M, g.E
 	var first, reader sdk.Msg
+	var extra []sdk.Msg // further messages between the reader and the failing one (re-reads of what was written)
 	var follow []sdk.Msg
 	nw := g.acct()
 	att := func(raw []byte) []byte { return e.Attest(raw, r.Intn(3)) }
@@ -796,6 +797,7 @@ func (g *Gen) RollbackProbe() Tx {
 		if _, has := m.Messengers[d]; has {
 			first = &ct.MsgRemoveRemoteTokenMessenger{From: m.Owner, DomainId: d}
 			reader = &ct.MsgAddRemoteTokenMessenger{From: m.Owner, DomainId: d, Address: Messenger(d, 2)}
+			extra = []sdk.Msg{&ct.MsgAddRemoteTokenMessenger{From: m.Owner, DomainId: d, Address: Messenger(d, 1)}}
 		} else {
 			first = &ct.MsgAddRemoteTokenMessenger{From: m.Owner, DomainId: d, Address: Messenger(d, 2)}
 			reader = &ct.MsgAddRemoteTokenMessenger{From: m.Owner, DomainId: d, Address: Messenger(d, 1)} // fails: exists
@@ -809,6 +811,8 @@ func (g *Gen) RollbackProbe() Tx {
 		if cur, has := m.Pairs[pairKey{d, string(tok)}]; has {
 			first = &ct.MsgUnlinkTokenPair{From: m.TC, RemoteDomain: d, RemoteToken: tok, LocalToken: cur}
 			reader = &ct.MsgLinkTokenPair{From: m.TC, RemoteDomain: d, RemoteToken: tok, LocalToken: "ueure"}
+			// a duplicate link re-reads the pair just written (and fails); so does an unlink + relink
+			extra = []sdk.Msg{&ct.MsgLinkTokenPair{From: m.TC, RemoteDomain: d, RemoteToken: tok, LocalToken: "ueure"}}
 		} else {
 			first = &ct.MsgLinkTokenPair{From: m.TC, RemoteDomain: d, RemoteToken: tok, LocalToken: "uusdc"}
 			reader = &ct.MsgLinkTokenPair{From: m.TC, RemoteDomain: d, RemoteToken: tok, LocalToken: "ueure"} // fails: exists
@@ -840,7 +844,7 @@ func (g *Gen) RollbackProbe() Tx {
 		}
 	}
 	failing := &ct.MsgRemoveRemoteTokenMessenger{From: Nobody(), DomainId: 0}
-	probe := []sdk.Msg{first, reader, failing}
+	probe := append(append([]sdk.Msg{first, reader}, extra...), failing)
 	if g.noSameBlock || r.Intn(2) == 0 || len(follow) == 0 {
 		for _, f := range follow {
 			g.queue = append(g.queue, Tx{Msgs: msgs1(f), Note: "follow-up of a rollback probe"})
